@@ -115,7 +115,7 @@ open Fcppt Fcppt.Gen
   c06_finish
 
 theorem div_{t}_zero (a : Int) : div_{t} a 0 = .ok none := by
-  gen_unfold_div; c06_norm; rfl
+  gen_unfold_div; c06_zero
 
 """
     for l, r in DIV_MIXED:
@@ -159,7 +159,7 @@ theorem div_{l}_{r}_exact (a b : Int) (ha : IntTy.{l}.InRange a) (hb : IntTy.{r}
 {rw}  exact e hr
 
 theorem div_{l}_{r}_zero (a : Int) : div_{l}_{r} a 0 = .ok none := by
-  gen_unfold_div; c06_norm; rfl
+  gen_unfold_div; c06_zero
 
 """
     o += """/-- the conversion is visible: `div(int32_t{-6}, uint32_t{3})` divides 4294967290 by 3 -/
@@ -199,7 +199,7 @@ open Fcppt Fcppt.Gen
   c06_finish
 
 theorem ceil_div_signed_{t}_zero (a : Int) : ceil_div_signed_{t} a 0 = .ok none := by
-  gen_unfold_ceil_div_signed; c06_norm; rfl
+  gen_unfold_ceil_div_signed; c06_zero
 
 """
     o += """/-- outside the guard (the ceiling 128 is not an `int8_t`) the narrow instantiation wraps instead of overflowing -/
